@@ -47,7 +47,35 @@ fn bytes_strategy() -> BoxedStrategy<Vec<u8>> {
 }
 
 pub fn raw_strategy() -> BoxedStrategy<FaultCase> {
-    prop_oneof![8 => (ty_strategy_ext(3, true), bytes_strategy()).prop_map(|(ty, bytes)| FaultCase::Raw { ty, bytes }), 1 => bad_utf8_strategy(), 1 => date_corner_strategy()].boxed()
+    prop_oneof![16 => (ty_strategy_ext(3, true), bytes_strategy()).prop_map(|(ty, bytes)| FaultCase::Raw { ty, bytes }), 2 => bad_utf8_strategy(), 2 => date_corner_strategy(), 1 => deep_strategy()].boxed()
+}
+
+/// encodings of the recursive compiled declarations nested 20-300 deep (RecTree is an evolved record: every level
+/// is a chunk inside a chunk), intact, cut, or with one byte changed: well inside what the stack allows (F13 starts far
+/// beyond), so the answer has to be a value or an Err
+fn deep_strategy() -> BoxedStrategy<FaultCase> {
+    let decls: Vec<Arc<vmodel::Decl>> = crate::props::derived::batch().specials.iter().filter(|d| ["RecTree", "RecList", "RecEnum"].contains(&d.name.as_str()) && crate::props::derived::compiled_ok(d)).cloned().collect();
+    if decls.is_empty() {
+        return bad_utf8_strategy();
+    }
+    (prop::sample::select(decls), prop_oneof![3 => 20usize..70, 1 => 70usize..300], 0u8..4, any::<u16>(), any::<u8>())
+        .prop_map(|(d, depth, how, sel, x)| {
+            let ty = Ty::Adt(d.clone());
+            let mut bytes = vmodel::refcodec::ref_encode(&ty, &crate::props::derived::deep_value(&d.name, depth)).map(|f| f.bytes).unwrap_or_default();
+            match how {
+                1 => {
+                    let k = vmodel::gen::pick(sel, bytes.len() + 1);
+                    bytes.truncate(k)
+                }
+                2 if !bytes.is_empty() => {
+                    let k = vmodel::gen::pick(sel, bytes.len());
+                    bytes[k] ^= x | 1
+                }
+                _ => {}
+            }
+            FaultCase::Raw { ty, bytes }
+        })
+        .boxed()
 }
 
 /// well-formed looking dates and times at the ends of chrono's range combined with offsets that push the instant
